@@ -34,7 +34,8 @@ CONSTANTS
   PartialFrames,           \* the transport may deliver only the first bytes of a frame before it is lost
   Intervals,               \* values for set_pingreq_send_interval (-1 = None); {} = never called
   Fire, Close, Erase, IdOps, Crash, Garbage, BadFrames, SendWhileDisc, PeerWhileDisc,
-  LateFrames          \* frames already in flight still arrive after the connection asked for the close
+  LateFrames,         \* frames already in flight still arrive after the connection asked for the close
+  CrossVersion        \* the application also hands in packets of the OTHER protocol version (must be refused)
 
 VARIABLES st,    \* Endpoint state of the object under test
           sh,    \* shadow object [mode, st]: fresh / fixed-version / restored copy (C10, C17, C16)
@@ -71,8 +72,7 @@ WellFormedPublish(p) == (p.topic # "" \/ p.alias # 0) /\ (p.qos > 0 => p.pid # 0
 
 Ver(s) == IF s.ver = "undet" THEN "v311" ELSE s.ver      \* version of packets exchanged with this object
 
-AppSends(s, gh) ==
-  LET v == Ver(s) IN
+AppSendsV(s, gh, v) ==
   (IF "publish" \in AppKinds
    THEN { p \in PublishPkts(v, gh.held \cup {0}, s.idw) : WellFormedPublish(p) /\ (p.qos = 0 \/ p.pid \in gh.held) }
    ELSE {})
@@ -86,6 +86,9 @@ AppSends(s, gh) ==
   \cup UNION { { AckPkt(k, v, pid, 0, s.idw) : pid \in InPids } : k \in AppKinds \cap {"suback", "unsuback"} }
   \cup { Sized(Pk(k, v), s.idw) : k \in AppKinds \cap {"pingreq", "pingresp", "disconnect"} }
   \cup (IF "auth" \in AppKinds /\ v = "v50" THEN { Sized(Pk("auth", v), s.idw) } ELSE {})
+
+AppSends(s, gh) ==
+  AppSendsV(s, gh, Ver(s)) \cup (IF CrossVersion THEN AppSendsV(s, gh, IF Ver(s) = "v311" THEN "v50" ELSE "v311") ELSE {})
 
 PeerFrames(s, gh) ==
   LET v == Ver(s)
@@ -232,5 +235,7 @@ NoViolation ==
      IN  IF v = {} THEN TRUE ELSE PrintT(<< "SPECVIOL", ToJson([v |-> v, calls |-> Brief(hist')]) >>) /\ FALSE]_vars
 
 (* ------------------------------------------------------------ transition cover *)
-PrintEdge == PrintT(<< "E", ToJson([hist |-> hist']) >>)
+\* "to": the target state as a string - lets the driver rebuild the state GRAPH from the printed edges (the source of an
+\* edge is the target of the edge that printed its history) and draw random walks through it
+PrintEdge == PrintT(<< "E", ToJson([hist |-> hist', to |-> ToString(view')]) >>)
 =============================================================================
